@@ -13,7 +13,7 @@ c06_pool     : a single-host pool refuses a cross-host redirect with HostChanged
 """
 from __future__ import annotations
 
-from kit.h import P, run, mark, known
+from kit.h import P, run, mark, known, decode_point
 from kit import net as N
 from kit import env as E
 
@@ -172,14 +172,22 @@ def _strip_body(front, si, cv, pos, container, rk, ti, status_i, extra):
         E.uninstall_clock()
 
 
-def c06_strip(front: int, si: int, cv: int, pos: int, container: int, rk: int, ti: int, status_i: int, extra: bool) -> bool:
+def strip_dims(part):
+    names = [(si, cv, pos) for si in range(3) for cv in range(4) for pos in (range(part["maxpos"]) if cv == 3 else [0])]
+    return [names, part["containers"], part["rks"], part["targets"], part["statuses"], [True] if part["fix_extra"] else [True, False]]
+
+
+def _strip_point(idx):
+    (si, cv, pos), container, rk, ti, status_i, extra = decode_point(idx, strip_dims(P))
+    return N._untraced(_strip_body)(P.front, si, cv, pos, container, rk, ti, status_i, extra)
+
+
+def c06_strip(idx: int) -> bool:
     """
-    pre: front == P.front and 0 <= si <= 2 and 0 <= cv <= 3 and 0 <= pos < P.maxpos and (cv == 3 or pos == 0)
-    pre: extra or not P.fix_extra
-    pre: container in P.containers and rk in P.rks and ti in P.targets and status_i in P.statuses
+    pre: 0 <= idx < P.n
     post: _
     """
-    return run(_strip_body, front, si, cv, pos, container, rk, ti, status_i, extra)
+    return run(_strip_point, idx)
 
 
 # ---- closed chains ---------------------------------------------------------------------------------------------------
@@ -278,12 +286,20 @@ def _chain_body(ci, si, cv, container, rk, only_creds):
         E.uninstall_clock()
 
 
-def c06_chain(ci: int, si: int, cv: int, container: int, rk: int, only_creds: bool) -> bool:
+def chain_dims(part):
+    return [part["chains"], [0, 1, 2], [0, 1, 2, 3], part["containers"], part["rks"], [True, False]]
+
+
+def _chain_point(idx):
+    return N._untraced(_chain_body)(*decode_point(idx, chain_dims(P)))
+
+
+def c06_chain(idx: int) -> bool:
     """
-    pre: 0 <= ci < len(CHAINS) and ci in P.chains and 0 <= si <= 2 and 0 <= cv <= 3 and container in P.containers and rk in P.rks
+    pre: 0 <= idx < P.n
     post: _
     """
-    return run(_chain_body, ci, si, cv, container, rk, only_creds)
+    return run(_chain_point, idx)
 
 
 # ---- origin equality ---------------------------------------------------------------------------------------------------
@@ -360,33 +376,38 @@ def _pool_body(ti, status_i, assert_same):
         E.uninstall_clock()
 
 
-def c06_pool(ti: int, status_i: int, assert_same: bool) -> bool:
+def pool_dims(part):
+    return [list(range(len(TARGETS))), [0, 1, 2, 3, 4], [True, False]]
+
+
+def _pool_point(idx):
+    return N._untraced(_pool_body)(*decode_point(idx, pool_dims(P)))
+
+
+def c06_pool(idx: int) -> bool:
     """
-    pre: 0 <= ti < len(TARGETS) and 0 <= status_i <= 4
+    pre: 0 <= idx < P.n
     post: _
     """
-    return run(_pool_body, ti, status_i, assert_same)
+    return run(_pool_point, idx)
+
+
+DIMS = {"c06_strip": strip_dims, "c06_chain": chain_dims, "c06_pool": pool_dims}
 
 
 def JOBS(tier):
     quick = tier == "quick"
-    t = 150 if quick else 900
+    t = 170 if quick else 900
     jobs = []
     nt = len(TARGETS)
     for front in (0, 1):
         for container in (0, 1, 2, 3):
-            for rk in range(6):
-                if quick and front == 1 and (container not in (0, 2) or rk not in (0, 1)):
-                    continue
-                jobs.append({"func": "c06_strip", "timeout": t, "path_timeout": 60,
-                             "part": {"front": front, "containers": [container], "rks": [rk],
-                                      "targets": list(range(nt)) if not quick else [0, 1, 2, 3, 4, 5, 7, 11],
-                                      "maxpos": 2 if quick else 19, "fix_extra": quick,
-                                      "statuses": [1, 2] if quick else [0, 1, 2, 3, 4]}})
+            jobs.append({"func": "c06_strip", "timeout": t, "path_timeout": 60, "samples": 1,
+                         "part": {"front": front, "containers": [container], "rks": list(range(6)), "targets": list(range(nt)),
+                                  "maxpos": 3 if quick else 19, "fix_extra": quick, "statuses": [1, 2] if quick else [0, 1, 2, 3, 4]}})
     for ci in range(len(CHAINS)):
-        for container in (0, 1, 2, 4):
-            jobs.append({"func": "c06_chain", "timeout": t, "path_timeout": 60,
-                         "part": {"chains": [ci], "containers": [container], "rks": [0, 1, 3] if quick else [0, 1, 2, 3, 4, 5]}})
+        jobs.append({"func": "c06_chain", "timeout": t, "path_timeout": 60, "samples": 1,
+                     "part": {"chains": [ci], "containers": [0, 1, 2, 4], "rks": [0, 1, 2, 3, 4, 5]}})
     for h1 in range(len(HOSTS)):
         jobs.append({"func": "c06_samehost", "timeout": t, "part": {"h1s": [h1]}})
     jobs.append({"func": "c06_pool", "timeout": t, "part": {}})
@@ -394,9 +415,9 @@ def JOBS(tier):
 
 
 EVIDENCE = {
-    "bounds": {"quick": "one hop (re-entry cut): 3 sensitive names x 4 casing families (flipped letter at position 0-1; every position in thorough) x 4 "
-                        "mapping types x 6 policies (default, custom, empty, mixed-case, plain int, Retry with budgets) x 8 origin deltas "
-                        "x {302,303} via PoolManager (+ ProxyManager subset); 4 closed 2-hop chains x 4 mapping types x 3 policies with "
+    "bounds": {"quick": "one hop (re-entry cut): 3 sensitive names x 4 casing families (flipped letter at position 0-2; every position in thorough) x 4 "
+                        "mapping types x 6 policies (default, custom, empty, mixed-case, plain int, Retry with budgets) x 14 origin deltas "
+                        "x {302,303} via PoolManager and ProxyManager; 4 closed 2-hop chains x 4 mapping types x 3 policies with "
                         "the peer's own log; is_same_host: 8x8 host spellings x 3 schemes x pool port {absent, default, ANY symbolic int 1..65535} x URL port {absent, default, 6 values}; single-host pool: 14 targets x 5 statuses",
                "thorough": "14 origin deltas, 5 statuses, all policies and mapping types through both managers"},
     "outside": ["free header names (hashing pins them): names come from the three sensitive ones + fixed others", "chains > 2 hops (inductive: the "
